@@ -822,12 +822,19 @@ func (m *Monitors) Observe(idx int, r *Result) {
 				continue
 			}
 			retained := ns(b.ExpiresAt) >= now
+			// "published at or before T": for a message published to the subscription's own topic that is the
+			// publish time the client was told (the message's); a forwarded message entered the subscription
+			// when it was forwarded (the delivery's)
+			pubT := ns(b.PublishedAt)
+			if msg := r.Msgs[b.MessageID]; msg != nil && msg.TopicID == sub.TopicID && ns(msg.PublishedAt) < pubT {
+				pubT = ns(msg.PublishedAt)
+			}
 			switch {
 			case !retained:
 				if !rowsEqual(b, a) {
 					m.fire("C13", "expired-touched", "seek changed delivery %s whose retention had ended", id)
 				}
-			case ns(b.PublishedAt) <= T:
+			case pubT <= T:
 				if a.CompletedAt == nil {
 					m.fire("C13", "not-acked", "seek to %d left delivery %s (published %d) outstanding", T, id, ns(b.PublishedAt))
 					if b.CompletedAt != nil {
